@@ -29,10 +29,11 @@ type ReuseOp struct {
 	PreIt      int      `json:"pre_it,omitempty"`
 	Take       int      `json:"take,omitempty"` // 0 = walk to the end, k>0 = only k steps (leaves the iterator half-consumed)
 	Doc        int      `json:"doc,omitempty"`
-	Restart    bool     `json:"restart,omitempty"`  // dictionary iterator: open a fresh iterator on the kept Dictionary
-	Slot       int      `json:"slot,omitempty"`     // dictionary iterator: which of the two iterators kept open per (segment, field)
-	Same       bool     `json:"same,omitempty"`     // postings: look up the same (segment, field, term) as the previous postings lookup
-	PreLast    bool     `json:"pre_last,omitempty"` // postings: pass the most recently returned list as prealloc
+	Restart    bool     `json:"restart,omitempty"`   // dictionary iterator: open a fresh iterator on the kept Dictionary
+	Slot       int      `json:"slot,omitempty"`      // dictionary iterator: which of the two iterators kept open per (segment, field)
+	Same       bool     `json:"same,omitempty"`      // postings: look up the same (segment, field, term) as the previous postings lookup
+	SameBack   bool     `json:"same_back,omitempty"` // postings: look up what the lookup before the previous one looked up, without prealloc
+	PreLast    bool     `json:"pre_last,omitempty"`  // postings: pass the most recently returned list as prealloc
 }
 
 type ReuseCase struct {
@@ -87,6 +88,7 @@ func genReuseCase(t *rapid.T, prop string) *Case {
 				op.Take = rapid.IntRange(1, 3).Draw(t, "take")
 			}
 			op.Same = rapid.IntRange(0, 3).Draw(t, "same") == 0
+			op.SameBack = !op.Same && rapid.IntRange(0, 3).Draw(t, "sameback") == 0
 			op.PreLast = rapid.IntRange(0, 3).Draw(t, "prelast") == 0
 		case 1:
 			op.Field = rapid.IntRange(0, 7).Draw(t, "field")
@@ -145,13 +147,22 @@ func runReuseCase(c *Case, env *Env) *Result {
 
 	var keyBuf []byte // one scratch buffer for all term keys, as a caller tokenising into a reused slice has
 	var lastPL segment.PostingsList
-	lastSeg, lastField, lastTerm, lastAbsent := -1, 0, 0, false
+	type lookup struct {
+		seg, field, term int
+		absent           bool
+	}
+	var hist []lookup
 	for oi, op := range c.Reuse.Ops {
 		if op.Kind == 0 {
-			if op.Same && lastSeg >= 0 {
-				op.Seg, op.Field, op.Term, op.Absent = lastSeg, lastField, lastTerm, lastAbsent
+			if op.Same && len(hist) >= 1 {
+				l := hist[len(hist)-1]
+				op.Seg, op.Field, op.Term, op.Absent = l.seg, l.field, l.term, l.absent
+			} else if op.SameBack && len(hist) >= 2 {
+				l := hist[len(hist)-2]
+				op.Seg, op.Field, op.Term, op.Absent = l.seg, l.field, l.term, l.absent
+				op.PrePL, op.PreLast = 0, false // a plain lookup of the earlier term again
 			}
-			lastSeg, lastField, lastTerm, lastAbsent = op.Seg, op.Field, op.Term, op.Absent
+			hist = append(hist, lookup{op.Seg, op.Field, op.Term, op.Absent})
 		}
 		ws := w.Segs[op.Seg%len(w.Segs)]
 		exp := ws.Exp()
